@@ -176,6 +176,18 @@ def gen_cases(ctx):
     # witness: a single draw of the gaussian copula (repaired: u_sample returned shape (d,))
     add("witness", [("D", "gaussian", (-0.25, 1.0)), ("D", "uniform", (1.25, 3.25))], ("mul", ("v", 0), ("sub", ("v", 1), ("c", 1))),
         ("endpoints", None, None), "imc", n_sam=1, seed=11, dep=("gaussian", 0.5))
+    # three inputs: every k^3 tuple; interval inputs repeat every focal image k (or k^2) times (multiplicity in the stack)
+    three = ("sub", ("mul", ("v", 0), ("v", 1)), ("mul", ("v", 2), ("v", 0)))
+    for k, inputs, cf in ((2, [("P", "normal", (0.0, 1.0), (1.0, 1.0)), ("P", "uniform", (0.0, 1.0), (2.0, 3.0)), ("D", "gaussian", (1.0, 0.5))], ("direct", None, None)),
+                          (3, [("P", "normal1", (-1.0, 0.5), (1.0,)), ("I", -1.0, 2.0), ("I", 0.5, 1.5)], ("endpoints", None, None)),
+                          (5, [("I", -1.0, 2.0), ("P", "uniform", (0.0, 1.0), (2.0, 3.0)), ("D", "uniform", (0.0, 2.0))], ("direct", None, None)),
+                          (4, [("D", "gaussian", (0.0, 1.0)), ("D", "uniform", (1.0, 2.0)), ("D", "gaussian", (2.0, 0.5))], ("subinterval", "direct", 2))):
+        add("three-inputs", inputs, three, cf, "slicing", k=k)
+    add("multiplicity", [("P", "normal", (0.0, 1.0), (1.0, 1.0)), ("I", 1.0, 2.0)], ("mul", ("v", 0), ("v", 1)), ("direct", None, None), "slicing", k=7)
+    add("multiplicity", [("I", 1.0, 2.0), ("P", "normal", (0.0, 1.0), (1.0, 1.0)), ("I", -1.0, 1.0)], three, ("endpoints", None, None),
+        "imc", n_sam=30, seed=5, dep=("gaussian", 0.8))
+    add("multiplicity", [("P", "uniform", (0.0, 1.0), (2.0, 3.0)), ("I", 0.0, 1.0)], ("add", ("v", 0), ("v", 1)), ("direct", None, None),
+        "imc", n_sam=100, seed=9, dep=("clayton", 3.0))
     n_s = ctx.scale(60, 350)
     n_i = ctx.scale(60, 350)
     for which, count in (("slicing", n_s), ("imc", n_i)):
@@ -260,8 +272,9 @@ def run(ctx: core.Check, cases=None):
         "p-box construction and the conversion of intervals / distributions to p-boxes (convert_pbox) are inputs: the model "
         "receives the 200 left/right quantiles",
         "the copula sample of interval Monte Carlo (statsmodels RNG) is an input of the model; reproducibility is tested, not proved",
-        "stacking (ecdf of the focal endpoints, 'next' interpolation) is not modelled: the tie compares the focal list handed to it, "
-        "the oracle checks the returned Staircase against the equal-weight quantiles of that list within one rank",
+        "stacking is the C08 model Pun.Dss.stacking (equal masses): the tie compares the focal list handed to it AND the returned "
+        "Staircase, except at grid levels that coincide with k/N (binary64 cumsum, see C08); the oracle independently checks "
+        "every level against the rank-ceil(p*N) focal endpoint",
         "nearest-level ties of alpha_cut are decided in exact arithmetic on the binary64 grid values (float subtraction of nearby "
         "levels is exact)",
         "rounding as in C13: focal intervals within 2^12*size ulp of the largest intermediate",
@@ -327,6 +340,29 @@ def run(ctx: core.Check, cases=None):
                 ctx.tie_ok()
             else:
                 ctx.tie_bad(c["stream"], cj(c), [impl[0], None if impl[0] == "ok" else impl[1], (o["focal"] or [])[:4]], rep[:300])
+            # ---------------- tie: the p-box stacked from the focal list (C08 model of `stacking`) ----------------
+            if t[0] == "ok" and same and len(t) >= 6 and t[3] == "pbox":
+                ml, mr = unql(t[4]), unql(t[5])
+                N = len(o["focal"])
+                bad = None
+                if len(ml) != len(impl[1]) or len(mr) != len(impl[2]):
+                    bad = "length"
+                else:
+                    for i, p in enumerate(pv):
+                        x = p * N
+                        if abs(x - round(x)) <= F(1, 10 ** 6):
+                            continue        # a grid level on k/N: binary64 cumsum may fall on either side (C08)
+                        if abs(F(float(impl[1][i])) - ml[i]) > tol or abs(F(float(impl[2][i])) - mr[i]) > tol:
+                            bad = i
+                            break
+                if bad is None:
+                    ctx.tie_ok()
+                else:
+                    ctx.tie_bad(c["stream"], cj(c, what="stacked p-box", at=bad),
+                                [float(impl[1][bad]), float(impl[2][bad])] if isinstance(bad, int) else [len(impl[1])],
+                                [float(ml[bad]), float(mr[bad])] if isinstance(bad, int) else [len(ml)])
+            elif t[0] == "ok" and same and len(t) >= 5 and t[3] == "stackerr":
+                ctx.tie_bad(c["stream"], cj(c, what="stacked p-box"), "ok", " ".join(t[3:5]))
         # ---------------- tie: slicing grid ----------------
         if c["method"] == "slicing":
             g = next(grid_reps)
@@ -417,6 +453,12 @@ def oracle(ctx, c, o, pv, tol):
             if [tuple(float(v) for v in r) for r in lv] != rows:
                 ctx.fail(feat(c, "reported-levels-not-cut"), cj(c, reported=lv[:3].tolist(), cut=[list(r) for r in rows[:3]]),
                          "the probability levels reported by interval Monte Carlo are not the ones whose alpha-cuts were propagated")
+            # ... and they are the sample of THIS dependency for THIS seed (statsmodels called directly)
+            dep_ref = dependency_of(c["dep"] if c["dep"] is not None else ("independence", None), d)
+            ref_lv = np.atleast_2d(dep_ref.copula.rvs(c["n_sam"], random_state=c["seed"]))
+            if ref_lv.shape != lv.shape or not np.array_equal(ref_lv, lv):
+                ctx.fail(feat(c, "levels-not-copula-sample"), cj(c, reported=lv[:2].tolist(), expected=ref_lv[:2].tolist()),
+                         "the probability levels are not the sample of the given dependency structure for the given seed")
         # reproducibility: same seed and dependency -> identical p-box and levels
         o2 = run_mixed(c)
         ctx.evaluations += 1
@@ -463,19 +505,23 @@ def oracle(ctx, c, o, pv, tol):
                      f"all inputs are precise distributions but the output p-box has width up to {w}")
         if any(fc[1] != fc[2] for fc in focal):
             ctx.fail(feat(c, "precise-focal-not-degenerate"), cj(c), "all inputs precise but a focal interval has positive width")
-    # 6. the Staircase is the equal-weight stack of the focal intervals (quantiles within one rank)
+    # 6. the Staircase is the equal-weight stack of the focal intervals: at every grid level p the left (right) value is
+    #    the ceil(p*N)-th smallest lower (upper) end, multiplicities counted; one rank of slack only where p*N is an integer
     N = len(focal)
     los = sorted(f[1] for f in focal)
     his = sorted(f[2] for f in focal)
-    _, _, _, Params = _mods()
     for arr, srt, name in ((left, los, "left"), (right, his, "right")):
-        for i in (0, 1, 57, 100, 143, 198, 199):
-            p = float(Params.p_values[i])
-            j = max(1, math.ceil(p * N - 1e-9))
-            cand = {srt[min(max(t, 1), N) - 1] for t in (j - 1, j, j + 1)}
+        for i, p in enumerate(pv):
+            x = p * N
+            j = min(max(1, math.ceil(x)), N)
+            if abs(x - round(x)) <= F(1, 10 ** 6):
+                cand = {srt[min(max(t, 1), N) - 1] for t in (j - 1, j, j + 1)}
+            else:
+                cand = {srt[j - 1]}
             if float(arr[i]) not in cand:
                 ctx.fail(feat(c, "not-equal-weight-stack"), cj(c, side=name, index=i, value=float(arr[i]), expected_rank=j, N=N),
-                         f"{name}[{i}] = {float(arr[i])} is not the rank-{j}(±1) of the {N} focal {name} endpoints: not an equal-weight stack")
+                         f"{name}[{i}] = {float(arr[i])} is not the rank-{j} of the {N} focal {name} endpoints "
+                         f"({srt[j - 1]}): not an equal-weight stack")
                 break
 
 
